@@ -761,6 +761,10 @@ class C2Profile(ConfigBlock):
                 elif item == ";":
                     logger.debug(repr(line))
                     line.pop()  # pop ;
+                    if line and line[0] == "#":
+                        # commented-out pseudo option (`# dns_resolver "...";`): not a profile setting, absent when parsed back
+                        line = []
+                        continue
                     key = ".".join(stack)
                     if key in list_props:
                         value = tuple(string_token_to_bytes(x) for x in line)
